@@ -29,6 +29,15 @@ def demo(meta, sd, wt):
         want = open(os.path.join(sd, d["dir"], d["expected"])).read()
         ok = rc == 0 and out.strip() == want.strip(); log += "[rc=%d]\n%s\n" % (rc, out[-600:])
         shutil.rmtree(dd); os.remove(os.path.join(wt, "gp_seed"))
+    elif d["kind"] == "gomain":
+        # a Go main program with its own module (replace directive rewritten to the scratch worktree); exit 0 = pass
+        dd = tempfile.mkdtemp(prefix="seedmain-", dir="/tmp")
+        for f in os.listdir(os.path.join(sd, d["dir"])): shutil.copy(os.path.join(sd, d["dir"], f), dd)
+        gm = open(os.path.join(dd, "go.mod")).read().split("replace ")[0] + "replace github.com/go-python/gpython => %s\n" % wt
+        open(os.path.join(dd, "go.mod"), "w").write(gm); shutil.copy(os.path.join(wt, "go.sum"), dd)
+        rc, out = sh("timeout 300 go run .", dd)
+        ok = rc == 0; log += "[rc=%d]\n%s\n" % (rc, out[-900:])
+        shutil.rmtree(dd)
     else:
         dst = os.path.join(wt, d["pkg"], os.path.basename(d["file"]))
         shutil.copy(os.path.join(sd, d["file"]), dst)
